@@ -160,7 +160,7 @@ theorem callSemLz_rel (w : World) (hw : WorldOK w) {h h' : Head} {args args' : L
       obtain ⟨rfl, hr⟩ := hh
       simp only [callSemLz]
       split
-      · exact fnCallLz_rel w hw m [] (.cons hr ha) hl .nil
+      · exact fnCallLz_rel w hw m kwn (.cons hr ha) hl hk
       · apply RLe.bind hr.1
         intro rv rv' hrv
         apply RLeS.bindR (evalAll_rel ha) (evalAll_rel_self ha)
